@@ -15,7 +15,7 @@ def norm(name):
     i = 0
     n = len(name)
     while i < n:
-        if name.startswith("::<", i):
+        if name.startswith("::<", i) and not name.startswith("::<impl ", i):
             depth = 0
             j = i + 2
             while j < n:
@@ -34,8 +34,79 @@ def norm(name):
     return "".join(out)
 
 
+def strip_impl(name):
+    """`a::<impl X>::m` -> `a::m` (inherent impl segments carry no information for matching)."""
+    while name and "::<impl " in name:
+        i = name.index("::<impl ")
+        depth = 0
+        j = i + 2
+        while j < len(name):
+            if name[j] == "<":
+                depth += 1
+            elif name[j] == ">" and name[j - 1] != "-":
+                depth -= 1
+                if depth == 0:
+                    break
+            j += 1
+        name = name[:i] + name[j + 1:]
+    return name
+
+
 def short(name, n=2):
+    """Readable short form: last n path segments; `<X as path::Trait>::m` becomes `Trait::m`."""
     name = norm(name or "?")
+    # inherent / trait impl segments: `a::<impl [T]>::m` -> `a::m`, `a::<impl Tr<X> for Y>::m` -> `a::Tr::m`
+    while "::<impl " in name:
+        i = name.index("::<impl ")
+        depth = 0
+        j = i + 2
+        while j < len(name):
+            if name[j] == "<":
+                depth += 1
+            elif name[j] == ">" and name[j - 1] != "-":
+                depth -= 1
+                if depth == 0:
+                    break
+            j += 1
+        inner = name[i + 8:j]
+        d = 0
+        cut = -1
+        for q in range(len(inner)):
+            if inner[q] in "<[(":
+                d += 1
+            elif inner[q] in ">])":
+                d -= 1
+            elif d == 0 and inner.startswith(" for ", q):
+                cut = q
+                break
+        mid = ("::" + re.sub(r"<.*$", "", inner[:cut]).split("::")[-1]) if cut >= 0 else ""
+        name = name[:i] + mid + name[j + 1:]
+    if name.startswith("<"):
+        # find the matching '>' of the leading qualified-self
+        depth = 0
+        for i, ch in enumerate(name):
+            if ch == "<":
+                depth += 1
+            elif ch == ">" and name[i - 1] != "-":
+                depth -= 1
+                if depth == 0:
+                    break
+        inner, rest = name[1:i], name[i + 1:]
+        # split `X as Trait` at top level
+        d = 0
+        cut = -1
+        for j in range(len(inner)):
+            if inner[j] == "<":
+                d += 1
+            elif inner[j] == ">":
+                d -= 1
+            elif d == 0 and inner.startswith(" as ", j):
+                cut = j
+        if cut >= 0:
+            tr = re.sub(r"<.*$", "", inner[cut + 4:])
+            name = tr + rest
+        else:
+            name = re.sub(r"<.*$", "", inner) + rest
     name = re.sub(r"<[^<>]*>", "", name)
     name = re.sub(r"<[^<>]*>", "", name)
     return "::".join(name.split("::")[-n:])
@@ -44,7 +115,15 @@ def short(name, n=2):
 class Facts:
     def __init__(self, d):
         self.dir = d
-        pk = os.path.join(d, "facts.pkl")
+        import hashlib
+        stamp = hashlib.sha1(open(os.path.abspath(__file__), "rb").read()).hexdigest()[:10]
+        pk = os.path.join(d, "facts-%s.pkl" % stamp)
+        for old in glob.glob(os.path.join(d, "facts*.pkl")):
+            if old != pk:
+                try:
+                    os.remove(old)
+                except OSError:
+                    pass
         if os.path.exists(pk):
             with open(pk, "rb") as fh:
                 self.__dict__.update(pickle.load(fh))
@@ -100,8 +179,17 @@ class Facts:
                     t["ncallee"] = norm(t.get("callee")) if t.get("callee") else None
                     t["nresolved"] = norm(t.get("resolved")) if t.get("resolved") else None
                     t["ncallables"] = [norm(c) for c in t.get("callables", [])]
+                    names = []
+                    for x in (t["nresolved"], t["ncallee"]):
+                        if x and x not in names:
+                            names.append(x)
+                    for x in list(names):
+                        y = strip_impl(x)
+                        if y not in names:
+                            names.append(y)
+                    t["names"] = names
                     if not b["cleanup"]:
-                        for name in {t["ncallee"], t["nresolved"]} - {None}:
+                        for name in names:
                             self.callers[name].append((k, bi))
         self.callers = dict(self.callers)
         self.by_crate = dict(self.by_crate)
@@ -131,7 +219,7 @@ class Facts:
 
 
 def callee_names(t):
-    return [x for x in (t.get("nresolved"), t.get("ncallee")) if x]
+    return t.get("names") or [x for x in (t.get("nresolved"), t.get("ncallee")) if x]
 
 
 def call_matches(t, rx):
